@@ -106,6 +106,20 @@ Theorem C06_cancel_reaches_socket_at_once : forall f blocked, cancel_seen f bloc
 Proof. exact cancel_seen_at_fire. Qed.
 Print Assumptions C06_cancel_reaches_socket_at_once.
 
+(* The timeline machine carries the socket's write deadline as state (set by the last data write;
+   the ping sets its own), so C06_no_early_close above also says: no ping of the code as it is can
+   fail on a stale deadline.  The variant in which the ping branch does NOT set its own deadline is
+   refuted: one message delivered at t+1 s, then silence - the first ping (t+54 s) goes out under a
+   deadline that passed at t+11 s, fails, and the relay closes a connection whose client answers
+   pings, 246 s before its expiry; the code as it is keeps the same connection open. *)
+Theorem C06_ping_under_stale_deadline_refuted :
+  exists t f evs h a,
+    timely (t + ping_period) None (evs ++ [(EDataIn, h)]) = true /\
+    status (run_v false (start t f) evs h) = Closed WriteTimeout a /\ a + 200 * ns_per_s < f /\
+    status (run (start t f) evs h) = Open.
+Proof. exact stale_deadline_kills_quiet_connection. Qed.
+Print Assumptions C06_ping_under_stale_deadline_refuted.
+
 (* non-vacuity: a 3 s token accepted 0.9 s into a second closes 0.9 s into the second after E;
    130 s of idling with prompt pongs leaves a long-lived connection open; the same without pongs
    is dropped at 60 s; the overflow witness really has a valid (accepted) token *)
